@@ -321,3 +321,40 @@ package keeper
 //@ modifies Store_oracle
 //@ ensures err == nil ==> Store_oracle == store(old(Store_oracle), types.ParamsKeyPrefix, enc(p)) && p.OracleRewardPercentage <= 100 && 1 <= p.SamplingTryCount && p.SamplingTryCount <= MaxInt64 && p.InactivePenaltyDuration <= MaxInt64
 //@ ensures err != nil ==> Store_oracle == old(Store_oracle)
+
+// ---- C13: data-source fees of a request ---------------------------------------------------------------------------------
+// The collector is used through its interface; its state is seen through three abstract views. The interface contracts
+// below mirror the verified contract of the one implementation (*feeCollector, above); what is trusted is that link and
+// that newFeeCollector returns that implementation freshly initialised. FeePaid: what the bank moved out of the payer
+// for fees, per denom (ledger ghost). Coins arithmetic per denom: assumed (coinAdd, coinNew; coinNonNeg above).
+//@ spec fcCollected(c FeeCollector) sdk.Coins uninterpreted
+//@ spec fcLimit(c FeeCollector) sdk.Coins uninterpreted
+//@ spec fcPayer(c FeeCollector) Addr uninterpreted
+//@ ghost FeePaid map[string]int
+//@ axiom coinAdd: forall a sdk.Coins, b sdk.Coins, d Str :: { ext("Coins.AmountOf", ext("Coins.Add", a, b), d) } ext("Coins.AmountOf", ext("Coins.Add", a, b), d) == ext("Coins.AmountOf", a, d) + ext("Coins.AmountOf", b, d)
+//@ axiom coinNew: forall d Str :: { ext("Coins.AmountOf", ext("NewCoins"), d) } ext("Coins.AmountOf", ext("NewCoins"), d) == 0
+//@ func newFeeCollector
+//@ trusted
+//@ ensures fcCollected(result) == ext("NewCoins") && fcLimit(result) == feeLimit && fcPayer(result) == payer
+//@ func (c FeeCollector) Collect
+//@ trusted
+//@ modifies c, Bank, FeePaid
+//@ ensures fcCollected(c) == ext("Coins.Add", old(fcCollected(c)), arg1) && fcLimit(c) == old(fcLimit(c)) && fcPayer(c) == old(fcPayer(c))
+//@ ensures err == nil ==> (forall d Str :: ext("Coins.AmountOf", fcCollected(c), d) <= ext("Coins.AmountOf", fcLimit(c), d))
+//@ ensures err == nil ==> (forall d Str :: FeePaid[d] == old(FeePaid)[d] + ext("Coins.AmountOf", arg1, d))
+//@ ensures err != nil ==> FeePaid == old(FeePaid) && Bank == old(Bank)
+//@ func (c FeeCollector) Collected
+//@ trusted
+//@ ensures result == fcCollected(c)
+
+// C13: the fees of a request are collected data source by data source (fee of the source x number of validators asked),
+// and on success the total reported back is, denom by denom, EXACTLY what the bank moved out of the payer for it, and
+// WITHIN the requester's fee limit
+//@ func (k Keeper) CollectFee
+//@ modifies Bank, FeePaid
+//@ ensures err == nil ==> (forall d Str :: ext("Coins.AmountOf", result, d) <= ext("Coins.AmountOf", feeLimit, d))
+//@ ensures err == nil ==> (forall d Str :: FeePaid[d] - old(FeePaid)[d] == ext("Coins.AmountOf", result, d))
+//@ loop 0: invariant fcLimit(collector) == feeLimit && fcPayer(collector) == payer
+//@ loop 0: invariant forall d Str :: ext("Coins.AmountOf", fcCollected(collector), d) <= ext("Coins.AmountOf", feeLimit, d)
+//@ loop 0: invariant forall d Str :: FeePaid[d] - old(FeePaid)[d] == ext("Coins.AmountOf", fcCollected(collector), d)
+//@ loop 1: invariant true
